@@ -24,6 +24,8 @@ for f in ('a.xml', 'b.xml'):
       passed.add(name)
 missing = sorted(stable - passed)
 print(f'stable_pass={len(stable)} passed_now={len(passed & stable)} missing={len(missing)} other_failed={len(failed - stable)}')
+for m in sorted(failed - stable)[:10]:
+  print('  OTHER-FAILED', m)
 for m in missing[:40]:
   print('  MISSING', m)
 import shutil; shutil.rmtree(tmp)
